@@ -22,6 +22,8 @@ type Scenario struct {
 	Reqs   []engx.Req `json:"reqs"`
 	Fail   bool       `json:"allow_store_failure,omitempty"`
 	Crash  bool       `json:"allow_crash,omitempty"`
+	Cancel bool       `json:"allow_cancel,omitempty"`
+	FailCtx bool      `json:"allow_store_failure_ctx_canceled,omitempty"`
 	Budget int        `json:"budget,omitempty"`
 }
 
@@ -75,7 +77,7 @@ func run(sc Scenario, prefix []int, keepTrace bool) Exec {
 	}
 	ex := Exec{SetupLen: len(disk.Logs), SetupChoices: setupChoices}
 	s := engx.New(disk, sc.Reqs)
-	s.AllowFail, s.AllowCrash = sc.Fail, sc.Crash
+	s.AllowFail, s.AllowCrash, s.AllowCancel, s.AllowFailCtx = sc.Fail, sc.Crash, sc.Cancel, sc.FailCtx
 	step := 0
 	for s.Fault == "" {
 		en := s.Enabled()
@@ -293,6 +295,52 @@ func oracles(sc Scenario, ex Exec) []failure {
 	if crashed == 0 && newEntries > len(distinctAcked) {
 		add("C06", "entry-without-successful-request", fmt.Sprintf("%d new entries, %d acknowledged distinct writes, nobody crashed", newEntries, len(distinctAcked)))
 	}
+	// C06: a write that reported an error (and did not die) leaves no entry: per content class, no more entries than
+	// requests that may legitimately have produced one (answered success, or died with the process)
+	classes := map[string][2]int{}
+	for i, r := range sc.Reqs {
+		if r.DryRun {
+			continue
+		}
+		k := contentKey(r)
+		c := classes[k]
+		if ex.Responses[i].OK || ex.Responses[i].Err == "crashed" {
+			c[0]++
+		}
+		classes[k] = c
+	}
+	for _, l := range ex.Disk[ex.SetupLen:] {
+		k := entryKey(l)
+		c := classes[k]
+		c[1]++
+		classes[k] = c
+	}
+	for k, c := range classes {
+		if c[1] > c[0] {
+			add("C06", "rejected-write-left-an-entry", fmt.Sprintf("%d entries of content %s, but only %d such requests succeeded or died", c[1], k, c[0]))
+		}
+	}
+	// C13: every stored entry survives the JSON round trip and re-verifies against its predecessor
+	var prevRT *ledger.ChainedLog
+	for i, l := range ex.Disk {
+		js, err := json.Marshal(l)
+		if err != nil {
+			add("C13", "engine-entry-does-not-marshal", fmt.Sprintf("log %d: %v", i, err))
+			break
+		}
+		back := &ledger.ChainedLog{}
+		if err := json.Unmarshal(js, back); err != nil {
+			add("C13", "engine-entry-does-not-read-back", fmt.Sprintf("log %d: %v", i, err))
+			break
+		}
+		re := back.Log
+		chained := re.ChainLog(prevRT)
+		if string(chained.Hash) != string(l.Hash) {
+			add("C13", "engine-entry-hash-does-not-verify-after-readback", fmt.Sprintf("log %d (%s, key %q): the hash recomputed from the read-back content and the previous hash differs from the stored hash", i, l.Type, l.IdempotencyKey))
+			break
+		}
+		prevRT = back
+	}
 	// C14: a dry run leaves nothing behind
 	for i, r := range sc.Reqs {
 		if !r.DryRun {
@@ -337,7 +385,16 @@ func oracles(sc Scenario, ex Exec) []failure {
 				if p.Tx != nil {
 					rt = p.Tx.ID.String()
 				}
-				add("C16", "reverted-event-not-faithful", fmt.Sprintf("event says reverted=%s revert=%s; no persisted revert entry says so", rv, rt))
+				sig := "reverted-event-not-faithful"
+				if p.Tid >= 0 && p.Tid < len(sc.Reqs) && sc.Reqs[p.Tid].IK != "" {
+					for _, l := range p.Persisted {
+						if pl, is := l.Data.(ledger.RevertedTransactionLogPayload); is && l.IdempotencyKey == sc.Reqs[p.Tid].IK &&
+							pl.RevertedTransactionID.Cmp(big.NewInt(sc.Reqs[p.Tid].RevertID)) != 0 {
+							sig = "reverted-event-not-faithful:idempotency-key-reused-for-a-revert-of-another-transaction"
+						}
+					}
+				}
+				add("C16", sig, fmt.Sprintf("event says reverted=%s revert=%s; no persisted revert entry says so", rv, rt))
 			}
 		}
 	}
@@ -364,6 +421,44 @@ func oracles(sc Scenario, ex Exec) []failure {
 		}
 	}
 	return fs
+}
+
+func contentKey(r engx.Req) string {
+	switch r.Kind {
+	case "create":
+		ps := r.ModelPostings
+		if len(ps) == 0 {
+			ps = r.Postings
+		}
+		var b strings.Builder
+		for _, p := range ps {
+			fmt.Fprintf(&b, "%s>%s:%d;", p.Source, p.Destination, p.Amount)
+		}
+		return fmt.Sprintf("create ref=%q ik=%q %s", r.Reference, r.IK, b.String())
+	case "revert":
+		return fmt.Sprintf("revert %d ik=%q", r.RevertID, r.IK)
+	case "savemeta":
+		return fmt.Sprintf("savemeta %s %s ik=%q", r.Target, r.TargetID, r.IK)
+	}
+	return fmt.Sprintf("delmeta %s %s %s ik=%q", r.Target, r.TargetID, r.Key, r.IK)
+}
+
+func entryKey(l *ledger.ChainedLog) string {
+	switch p := l.Data.(type) {
+	case ledger.NewTransactionLogPayload:
+		var b strings.Builder
+		for _, x := range p.Transaction.Postings {
+			fmt.Fprintf(&b, "%s>%s:%s;", x.Source, x.Destination, x.Amount)
+		}
+		return fmt.Sprintf("create ref=%q ik=%q %s", p.Transaction.Reference, l.IdempotencyKey, b.String())
+	case ledger.RevertedTransactionLogPayload:
+		return fmt.Sprintf("revert %s ik=%q", p.RevertedTransactionID, l.IdempotencyKey)
+	case ledger.SetMetadataLogPayload:
+		return fmt.Sprintf("savemeta %s %v ik=%q", p.TargetType, p.TargetID, l.IdempotencyKey)
+	case ledger.DeleteMetadataLogPayload:
+		return fmt.Sprintf("delmeta %s %v %s ik=%q", p.TargetType, p.TargetID, p.Key, l.IdempotencyKey)
+	}
+	return "?"
 }
 
 func boolInt(b bool) int {
@@ -468,6 +563,22 @@ func scenarios() []Scenario {
 		{Name: "meta-on-transaction", Setup: []engx.Req{fund("alice", 100)}, Reqs: []engx.Req{
 			{Kind: "savemeta", Target: "TRANSACTION", TargetID: "0", Meta: map[string]string{"a": "1"}},
 			{Kind: "savemeta", Target: "TRANSACTION", TargetID: "7", Meta: map[string]string{"a": "1"}}}},
+		{Name: "ik-reuse-different-revert", Setup: []engx.Req{fund("alice", 100), xfer(10, "alice", "bob"), xfer(10, "alice", "bob"), ik(engx.Req{Kind: "revert", RevertID: 1}, "k9")},
+			Reqs: []engx.Req{ik(engx.Req{Kind: "revert", RevertID: 2}, "k9")}, Budget: 10},
+		{Name: "three-same-ik", Setup: []engx.Req{fund("alice", 300)}, Budget: 500, Reqs: []engx.Req{
+			ik(xfer(10, "alice", "bob"), "k7"), ik(xfer(10, "alice", "bob"), "k7"), ik(xfer(10, "alice", "bob"), "k7")}},
+		{Name: "three-same-reference", Setup: []engx.Req{fund("alice", 300)}, Budget: 500, Reqs: []engx.Req{
+			ref(xfer(10, "alice", "bob"), "r7"), ref(xfer(20, "alice", "carol"), "r7"), ref(xfer(30, "alice", "carol"), "r7")}},
+		{Name: "three-racing-reverts", Setup: []engx.Req{fund("alice", 100), xfer(40, "alice", "bob")}, Budget: 500, Reqs: []engx.Req{
+			{Kind: "revert", RevertID: 1, Force: true}, {Kind: "revert", RevertID: 1, Force: true}, {Kind: "revert", RevertID: 1, Force: true}}},
+		{Name: "metadata-only-then-restart", Setup: []engx.Req{metaA, engx.Req{Kind: "savemeta", Target: "ACCOUNT", TargetID: "bob", Meta: map[string]string{"b": "2"}}}, Reqs: []engx.Req{
+			metaA, fund("alice", 5)}, Budget: 120},
+		{Name: "cancel-after-handoff", Setup: []engx.Req{fund("alice", 100)}, Cancel: true, Budget: 160, Reqs: []engx.Req{
+			ref(xfer(100, "alice", "bob"), "r8"), ref(xfer(100, "alice", "carol"), "r8")}},
+		{Name: "cancel-spend-race", Setup: []engx.Req{fund("alice", 100)}, Cancel: true, Budget: 160, Reqs: []engx.Req{
+			xfer(100, "alice", "bob"), xfer(100, "alice", "carol")}},
+		{Name: "store-failure-context-canceled", Setup: []engx.Req{fund("alice", 100)}, FailCtx: true, Budget: 40, Reqs: []engx.Req{
+			metaA, xfer(10, "alice", "bob")}},
 		{Name: "crash-points", Setup: []engx.Req{fund("alice", 100)}, Crash: true, Fail: true, Reqs: []engx.Req{
 			ik(xfer(10, "alice", "bob"), "k3"), ik(xfer(10, "alice", "bob"), "k3"),
 			{Kind: "delmeta", Target: "ACCOUNT", TargetID: "alice", Key: "a"}}},
@@ -810,9 +921,13 @@ func main() {
 	if !replayOnly {
 		scs = append(scs, scenarios()...)
 	}
-	budget := 400
+	budget := 300
 	if r.Thorough() {
 		budget = 6000
+	}
+	scale := 1
+	if r.Thorough() {
+		scale = 12
 	}
 	only := os.Getenv("VERIF_SCENARIO")
 	for _, sc := range scs {
@@ -821,7 +936,7 @@ func main() {
 		}
 		b := budget
 		if sc.Budget > 0 {
-			b = sc.Budget
+			b = sc.Budget * scale
 		}
 		prefix := []int{}
 		n, faults := 0, 0
@@ -855,7 +970,13 @@ func main() {
 				fmt.Fprintln(os.Stderr, "EXEC", ex.Choices, string(js), len(ex.Disk))
 			}
 			coq := ""
-			if validated < validateMax {
+			modelled := !sc.Cancel && !sc.FailCtx // these scenarios offer choices the model does not have
+			for _, c := range ex.MainChoices {
+				if c.Kind == "cancel" || c.Kind == "persist_fail_ctx" {
+					modelled = false // context cancellation and its store error are outside the model: oracle only
+				}
+			}
+			if validated < validateMax && modelled {
 				coq = coqCase(sc, ex)
 				validated++
 			}
